@@ -4,6 +4,7 @@
 import SonicModel.Lemmas.StrDecodeMain
 import SonicModel.Lemmas.SkipRefine
 import SonicModel.Lemmas.StrBlockProof
+import SonicModel.Lemmas.StrInplaceProof
 namespace Sonic.Thm.C09
 open Sonic Gen Impl
 
@@ -72,5 +73,36 @@ example : (decodeFrom false ex1 1).view = some ([97, 10, 0xC3, 0xA9, 0xF0, 0x9F,
 def ex2 : Buf := #[34, 92, 117, 68, 56, 48, 48, 97, 98, 99, 100, 101, 102, 103, 104, 34]
 example : Spec.stringS false ex2 1 = none := by decide +kernel
 example : Spec.stringS true ex2 1 = some ([0xEF, 0xBF, 0xBD, 97, 98, 99, 100, 101, 102, 103, 104], 16) := by decide +kernel
+
+/-- **the in-place decoder on the padded copy of a text** (fourth session; `parse_string_inplace` /
+    `handle_unicode_codepoint_mut` of src/util/string.rs and src/util/unicode.rs — the decoder behind `from_str::<Value>` —
+    modelled with its 32-byte blocks, its unchecked loads and its stores into the buffer it is reading, `Impl/StrInplace.lean`):
+    for every text `t`, every start `i` inside it, strict and lossy, on the copy `t ++ x"x ++ 61 zero bytes` that
+    `parse_with_padding` makes, the decoder terminates, performs **no load and no store outside the buffer**, and answers as
+    the specification reads that buffer: on success the bytes it has written at `i ..` are exactly the decoded text, the
+    reader stands just behind the closing quote, the buffer has kept its size, and every byte in front of the literal and
+    from the reader on is unchanged (the rest of the document is parsed from the same buffer afterwards); it reports an
+    error exactly when the specification rejects the literal.  (`Lemmas/StrInplace{Base,Proof}.lean`: the writer never
+    overtakes the reader — an escape consumes at least two bytes and produces at most four out of at least six — and the
+    sentinel quote stops every scan before the block loads could leave the padding.) -/
+theorem inplace_decoder_on_padded_text (lossy : Bool) (t : Buf) (i : Nat) (hi : i ≤ t.size) :
+    match StrIn.run lossy (StrIn.pad t) i with
+    | .ok mem cnt e =>
+      ∃ bs, Spec.stringS lossy (StrIn.pad t) i = some (bs, e) ∧ StrBlock.bytes mem i (i + cnt) = bs ∧
+        mem.size = (StrIn.pad t).size ∧ ∀ k, k < i ∨ e ≤ k → mem[k]? = (StrIn.pad t)[k]?
+    | .err _ => Spec.stringS lossy (StrIn.pad t) i = none
+    | .fault => False
+    | .fuel => False :=
+  StrIn.Post_unpack (StrIn.pad t) i _ _ (StrIn.run_spec lossy t i hi)
+
+/-- … and the padding is what keeps it inside: on the bare text `"abc` (no closing quote, nothing behind it) the first
+    block load already leaves the buffer -/
+theorem inplace_decoder_needs_the_padding :
+    (match StrIn.run false #[34, 97, 98, 99] 1 with | .fault => true | _ => false) = true := by decide +kernel
+
+/-- non-vacuity: `"a\n\u00e9\uD83D\uDE00"` (`ex1`) through the in-place decoder on its padded copy -/
+example : (match StrIn.run false (StrIn.pad ex1) 1 with
+    | .ok mem cnt e => (StrBlock.bytes mem 1 (1 + cnt), e)
+    | _ => ([], 0)) = ([97, 10, 0xC3, 0xA9, 0xF0, 0x9F, 0x98, 0x80], 23) := by decide +kernel
 
 end Sonic.Thm.C09
